@@ -411,10 +411,11 @@ def check(idx: Index, rep: Report, tier: str) -> str:
     f = idx.func(PR, "PatternRewriteWalker._process_worklist")
     cfg = CFG(f.node)
     match = [c for c in calls_in(f.node) if unparse(c.func) == "self.pattern.match_and_rewrite"]
-    acc = [s for s in walk_local(f.node) if isinstance(s, ast.AugAssign) and isinstance(s.op, ast.BitOr) and unparse(s.value) == "rewriter.has_done_action"]
-    reset = [s for s in walk_local(f.node) if isinstance(s, ast.Assign) and unparse(s) == "rewriter.has_done_action = False"]
-    if len(match) != 1:
+    if len(match) != 1 or len(match[0].args) != 2:
         raise AnalysisError(f"{f.fq}: match_and_rewrite call not found")
+    opv, rwv = unparse(match[0].args[0]), unparse(match[0].args[1])  # the matched operation and the rewriter, whatever they are called
+    acc = [s for s in walk_local(f.node) if isinstance(s, ast.AugAssign) and isinstance(s.op, ast.BitOr) and unparse(s.value) == f"{rwv}.has_done_action"]
+    reset = [s for s in walk_local(f.node) if isinstance(s, ast.Assign) and unparse(s) == f"{rwv}.has_done_action = False"]
     nm = cfg.node_of(match[0])
     accn = {cfg.node_of(s) for s in acc}
     resn = {cfg.node_of(s) for s in reset}
@@ -432,7 +433,7 @@ def check(idx: Index, rep: Report, tier: str) -> str:
     (r5.ok(f.fq, f"{f.loc} reset; match; {accvar} |= flag") if not bad else [r5.fail(f.fq, Finding("C11.R5", f.fq, k, m, f.loc)) for k, m in bad])
     # ops are taken from the worklist only
     pops = [c for c in calls_in(f.node) if unparse(c.func) == "self._worklist.pop"]
-    opdefs = {unparse(v) for _, v in reaching_defs(cfg, "op", nm) if v is not None}
+    opdefs = {unparse(v) for _, v in reaching_defs(cfg, opv, nm) if v is not None}
     if opdefs == {"self._worklist.pop()"} and pops:
         r5.ok(f.fq + ":source", f"{f.loc} matched op always comes from self._worklist.pop()")
     else:
